@@ -3,7 +3,12 @@
  * 5 table{a:char}, 6 list[list[char]], 7 table{a:list[char]}. */
 #ifndef VALUE_SHAPES_H
 #define VALUE_SHAPES_H
-static UChar KEYA[2] = { 'a', 0 };
+#ifdef NORM_SINGLETONS
+static UChar KEYA[2] = { 0x212B, 0 };   /* ANGSTROM SIGN: its normalised form (U+00C5) differs from the spelling entered */
+#else
+static UChar KEYA[2] = { 'A', 0 };
+#endif
+static void same_key(cif_value_tp *t);
 static cif_value_tp *mk_char(void) {
     cif_value_tp *v = NULL; UChar t[3]; int rc;
 #ifdef CONCRETE_TEXT
@@ -63,15 +68,22 @@ static void same(int shape, cif_value_tp *a, cif_value_tp *b) {
     case 4: cif_value_get_element_count(a, &n); cif_value_get_element_count(b, &m); if (n != 2 || m != 2) { bad = 1; return; }
             cif_value_get_element_at(a, 0, &x); cif_value_get_element_at(b, 0, &y); same_scalar(x, y);
             cif_value_get_element_at(a, 1, &x); cif_value_get_element_at(b, 1, &y); same_scalar(x, y); break;
-    case 5: cif_value_get_element_count(b, &m); if (m != 1) { bad = 1; return; }
+    case 5: cif_value_get_element_count(b, &m); if (m != 1) { bad = 1; return; } same_key(b);
             if (cif_value_get_item_by_key(a, KEYA, &x) != CIF_OK || cif_value_get_item_by_key(b, KEYA, &y) != CIF_OK) { bad = 1; return; } same_scalar(x, y); break;
     case 6: cif_value_get_element_count(b, &m); if (m != 1) { bad = 1; return; }
             cif_value_get_element_at(a, 0, &x); cif_value_get_element_at(b, 0, &y); if (!x || !y || x == y || y->kind != CIF_LIST_KIND) { bad = 1; return; }
             a = x; b = y; cif_value_get_element_count(b, &m); if (m != 1) { bad = 1; return; }
             cif_value_get_element_at(a, 0, &x); cif_value_get_element_at(b, 0, &y); same_scalar(x, y); break;
-    default: if (cif_value_get_item_by_key(a, KEYA, &x) != CIF_OK || cif_value_get_item_by_key(b, KEYA, &y) != CIF_OK || x == y || y->kind != CIF_LIST_KIND) { bad = 1; return; }
+    default: same_key(b); if (cif_value_get_item_by_key(a, KEYA, &x) != CIF_OK || cif_value_get_item_by_key(b, KEYA, &y) != CIF_OK || x == y || y->kind != CIF_LIST_KIND) { bad = 1; return; }
             a = x; b = y; cif_value_get_element_count(b, &m); if (m != 1) { bad = 1; return; }
             cif_value_get_element_at(a, 0, &x); cif_value_get_element_at(b, 0, &y); same_scalar(x, y); break;
     }
 }
 #endif
+/* the single key of table t is reported in the spelling it was entered with */
+static void same_key(cif_value_tp *t) {
+    const UChar **keys = NULL;
+    if (cif_value_get_keys(t, &keys) != CIF_OK || keys == NULL) { bad = 1; return; }
+    if (keys[0] == NULL || keys[0][0] != KEYA[0] || keys[0][1] != 0 || keys[1] != NULL) bad = 1;
+    free(keys);
+}
